@@ -50,6 +50,58 @@ theorem accLoop_popped (ops : Ops DT Val) (cfg : Cfg Val) :
           · right; simp only [List.mem_singleton] at h2; simp [h2]
       · right; simp only [Bool.false_eq_true, ↓reduceIte, List.map_cons, List.mem_cons]; exact Or.inr h1
 
+/-! ## own properties of a parameter after its cfg -/
+
+theorem applyEntries_own (ops : Ops DT Val) : ∀ (items : List (Name × Val)) (a a' : Acc DT Val),
+    applyEntries ops a items = some a' → a'.own = ownAfter ops a.own items := by
+  intro items
+  induction items with
+  | nil => intro a a' h; simp only [applyEntries, Option.some.injEq] at h; subst h; rfl
+  | cons kv rest ih =>
+    intro a a' h
+    obtain ⟨k, v⟩ := kv
+    simp only [applyEntries] at h
+    by_cases hv : k = "value"
+    · subst hv
+      simp only [cfgStep, ↓reduceIte] at h
+      simpa [ownAfter, Spec.C10.isValueKey] using ih _ a' h
+    · by_cases hd : k = "default"
+      · subst hd
+        simp only [cfgStep, hv, ↓reduceIte] at h
+        simpa [ownAfter, Spec.C10.isValueKey] using ih _ a' h
+      · have hvk : Spec.C10.isValueKey k = false := by simp [Spec.C10.isValueKey, hv, hd]
+        simp only [cfgStep, hv, hd, ↓reduceIte] at h
+        simp only [ownAfter, hvk, Bool.false_eq_true, ↓reduceIte]
+        cases hown : ops.ownProp k with
+        | some f =>
+          simp only [hown] at h ⊢
+          cases hf : f v with
+          | none => simp [hf] at h
+          | some v' => simp only [hf] at h ⊢; exact ih _ a' h
+        | none =>
+          simp only [hown] at h ⊢
+          cases hdt : a.dt with
+          | none => simp only [hdt] at h; exact ih _ a' h
+          | some dt =>
+            simp only [hdt] at h
+            cases hs : ops.setProp dt k v with
+            | unknown => simp [hs] at h
+            | bad => simp [hs] at h
+            | ok dt' => simp only [hs] at h; exact ih { a with dt := some dt' } a' h
+
+/-- a parameter which went through `addParam` without exception had its cfg loop completed -/
+theorem addParam_entries (ops : Ops DT Val) (insts : List (PInst DT Val)) (pd : ParamDesc DT Val)
+    (e : Option (Entry Val)) (items : List (Name × Val)) (o : POut DT Val)
+    (he : e = some (.acc items) ∨ (e = none ∧ items = []))
+    (hadd : addParam ops insts pd e = .done o) :
+    ∃ a, applyEntries ops (startAcc ops insts pd).acc items = some a := by
+  rcases he with rfl | ⟨rfl, rfl⟩
+  · simp only [addParam] at hadd
+    cases hap : applyEntries ops (startAcc ops insts pd).acc items with
+    | none => simp [hap] at hadd
+    | some a => exact ⟨a, rfl⟩
+  · exact ⟨_, rfl⟩
+
 /-! ## commands in the cfg -/
 
 theorem cmdEntries_nil (ops : Ops DT Val) (n : Name) : ∀ (items : List (Name × Val)), cmdEntries ops n items = .errs [] →
